@@ -142,6 +142,28 @@ impl Params {
         }
     }
 
+    /// Hundreds of packages with one or two candidates each and a root that requires most of
+    /// them: more than 128 requests in flight at once, more than 256 solvables and ids on
+    /// both sides of every chunk boundary of the solver's tables.
+    pub fn wide() -> Self {
+        Params {
+            min_pkgs: 130,
+            max_pkgs: 220,
+            max_cands: 2,
+            max_reqs: 2,
+            max_constrains: 1,
+            p_union: 100,
+            p_root_union: 60,
+            min_root_reqs: 300,
+            max_root_reqs: 420,
+            max_root_constraints: 3,
+            p_forward: 800,
+            vs_w: [6, 1, 2, 1, 0],
+            max_soft: 0,
+            ..Params::default()
+        }
+    }
+
     /// development aid: VERIF_PARAMS='{"max_cands":6,...}' overrides fields
     pub fn env_override(self) -> Self {
         match std::env::var("VERIF_PARAMS") {
@@ -568,13 +590,15 @@ pub fn gen_conflict_free(t: &mut Tape, p: &Params, with_hints: bool) -> (Univers
         let pos = pk.sort_rank.iter().position(|&c| c == tgt).unwrap();
         let favored = pk.favored == Some(tgt);
         let mut matches = vec![tgt];
+        // a favored target leaves room for "any version" sets, and several distinct ones
+        let match_all = favored && t.chance(1, 3);
         for (rank_pos, &c) in pk.sort_rank.iter().enumerate() {
             if c == tgt {
                 continue;
             }
             // candidates ranked before the target may only be included if the target is favored
             let allowed = favored || rank_pos > pos;
-            if allowed && t.chance(1, 2) {
+            if allowed && (match_all || t.chance(1, 2)) {
                 matches.push(c);
             }
         }
